@@ -718,7 +718,7 @@ func runE2E(raw json.RawMessage, seed int64, rec *Rec) {
 	earlyErr := errView(cerr)
 
 	// the exchange is over once the handler returned (the tap is complete then)
-	for i := 0; i < 2000; i++ {
+	for i := 0; i < 20000; i++ {
 		tap.mu.Lock()
 		served := tap.Served
 		tap.mu.Unlock()
